@@ -42,6 +42,7 @@ import DeapModel.Lemmas.C03Compose
 import DeapModel.Lemmas.C03ComposeList
 import DeapModel.Lemmas.C03ComposeSel
 import Mathlib.Analysis.Complex.ExponentialBounds
+import DeapModel.Lemmas.C03Gen
 
 namespace C03
 open Variation Loops
